@@ -1,10 +1,14 @@
 #!/bin/sh
 # usage: seedtest.sh <prop> <patch.diff> [check args]   - run ./check <prop> against a copy of /repo with the patch applied
+# The run gets a private copy of the Coq development too (VERIF_COQ_DIR), so that the Gen/*.v files regenerated
+# from the mutated source and the .vo files built from them never mix with /verif/coq or with another seedtest.
 P="$1"; PATCH="$2"; shift 2
 D=$(mktemp -d /tmp/mutrepo.XXXXXX)
 cp -r /repo/src /repo/tests /repo/conftest.py /repo/pyproject.toml "$D"/ 2>/dev/null
 ( cd "$D" && patch -p1 -s < "$PATCH" ) || { echo "PATCH DID NOT APPLY"; rm -rf "$D"; exit 3; }
-VERIF_EVIDENCE_DIR="$D/evidence" ATTRS_REPO="$D" /verif/check "$P" "$@"; rc=$?
+cp -a /verif/coq "$D/coq"; rm -rf "$D/coq/build"
+VERIF_COQ_DIR="$D/coq" VERIF_EVIDENCE_DIR="$D/evidence" VERIF_REPLAY_DIR="$D/replays" ATTRS_REPO="$D" /verif/check "$P" "$@"; rc=$?
+if [ -n "$SEEDTEST_KEEP" ]; then mkdir -p "$SEEDTEST_KEEP"; cp "$D"/evidence/*.json "$SEEDTEST_KEEP"/ 2>/dev/null; fi
 rm -rf "$D"
 echo "seedtest exit=$rc"
 exit $rc
